@@ -6,9 +6,12 @@ cd /repo || exit 2
 if ! git diff --quiet; then echo "/repo has local changes"; exit 2; fi
 git apply "$patch" || { echo "patch does not apply"; exit 2; }
 cd /verif
+# evidence files are rewritten by every run: keep the ones of the unchanged tree
+rm -rf /verif/.cache/evidence.keep; cp -r /verif/evidence /verif/.cache/evidence.keep
 for p in "$@"; do
   out=$(timeout 1500 ./check "$p" quick 2>/dev/null | grep -E "^(VIOLATION|OK|KNOWN|ERROR)" | cut -c1-160)
   echo "== $p: $out"
 done
 git -C /repo checkout -- . 
+rm -rf /verif/evidence; mv /verif/.cache/evidence.keep /verif/evidence
 git -C /repo status --short | head -3
